@@ -290,6 +290,12 @@ pub fn label_name(rng: &mut StdRng, used: &mut Vec<String>) -> String {
             if exotic && chance(rng, 40) { s.push(*pick(rng, &EXOTIC_LABEL_CHARS)); }
             else { s.push(rest[rng.random_range(0..rest.len())] as char); }
         }
+        // names that begin like a register (R7SAVE, r2d2, R1_x): identifiers, since a register token is R + digits only
+        if chance(rng, 8) {
+            let tail0 = b"ABCDEFGHIJKLMNOPQRSTUVWXYZabcdefghijklmnopqrstuvwxyz_";
+            s = format!("{}{}{}", if chance(rng, 50) { 'R' } else { 'r' }, rng.random_range(0..10), tail0[rng.random_range(0..tail0.len())] as char);
+            for _ in 0..rng.random_range(0..3) { s.push(rest[rng.random_range(0..rest.len())] as char); }
+        }
         let up = s.to_uppercase();
         if KEYWORDS.contains(&up.as_str()) { continue; }
         if used.iter().any(|u| u.to_uppercase() == up) { continue; }
